@@ -1,16 +1,17 @@
-(* C07 — slashing of pending unbondings is exact, single and scoped.  FALSE of
-   the unchanged code (refutation below); the per-entry arithmetic is proved. *)
+(* C07 — slashing of pending unbondings is exact, single and scoped. *)
 From Coq Require Import ZArith List Bool Lia.
 From Alliance Require Import Num KMap Types Monad Model Step Spec Hoare WitnessLib.
 From Alliance.Witness Require Import F_C07_bucket.
 Import ListNotations.
 Open Scope Z_scope.
 
-(* F-C07-1: a bucket shared by entries of several validators / denoms is slashed as a
-   whole, once per index key pointing at it.  History executed on the real implementation. *)
-Example C07_refuted_shared_bucket : witness_fails 7 1 ops_F_C07_bucket = true.
-Proof. vm_compute. reflexivity. Qed.
-Print Assumptions C07_refuted_shared_bucket.
+(* F-C07-1 (FIXED in /repo by "fix: slash only the unbonding entries of the slashed validator"):
+   a bucket shared by entries of several validators / denoms was slashed as a whole, once per
+   index key pointing at it.  The witness history (executed on the real implementation before
+   the fix) no longer violates clause 1 (entry-wise exactness) nor clause 2 (fee collector). *)
+Example C07_fixed_shared_bucket : witness_fails 7 1 ops_F_C07_bucket = false /\ witness_fails 7 2 ops_F_C07_bucket = false.
+Proof. vm_compute. split; reflexivity. Qed.
+Print Assumptions C07_fixed_shared_bucket.
 
 (* the abstract slash of one entry removes exactly floor(f * balance) (f a 10^18-scaled
    fraction in (0,1]) and leaves foreign and matured entries untouched *)
